@@ -657,6 +657,14 @@ class io_epoll_context::read_sender {
       if (static_cast<completion_base&>(self).enqueued_.load() == 0) {
         // Avoid instantiating set_done() if we're not going to call it.
         if constexpr (is_stop_ever_possible) {
+          // Deregister the stop callback (waiting for it to return if it is
+          // still running on another thread) unless the io completion path
+          // has already done so.
+          if ((self.state_.load(std::memory_order_acquire) &
+               io_epoll_context::read_sender::operation<Receiver>::io_mask) ==
+              0) {
+            self.stopCallback_.destruct();
+          }
           unifex::set_done(std::move(self.receiver_));
         } else {
           // This should never be called if stop is not possible.
@@ -888,6 +896,14 @@ class io_epoll_context::write_sender {
       if (static_cast<completion_base&>(self).enqueued_.load() == 0) {
         // Avoid instantiating set_done() if we're not going to call it.
         if constexpr (is_stop_ever_possible) {
+          // Deregister the stop callback (waiting for it to return if it is
+          // still running on another thread) unless the io completion path
+          // has already done so.
+          if ((self.state_.load(std::memory_order_acquire) &
+               io_epoll_context::write_sender::operation<Receiver>::io_mask) ==
+              0) {
+            self.stopCallback_.destruct();
+          }
           unifex::set_done(std::move(self.receiver_));
         } else {
           // This should never be called if stop is not possible.
